@@ -436,6 +436,7 @@ def run_events(src, dv):
     glb['TY'] = int
     glb['GW'] = (3, 4)
     glb['GX'] = glb['GY'] = 0
+    glb['DEC'] = lambda *a: (lambda fn: fn)
     exec(compile(src, '<c08>', 'exec'), glb)
     codes = {}
     todo = [glb['f'].__code__]
